@@ -264,6 +264,7 @@ def _driver_class(sim):
         def __call__(self, environ, start_response):
             conn = environ['vf.ws']
             self.conn = conn
+            sim.real_ws.append(self)
             environ['werkzeug.socket'] = conn.sock
             if getattr(conn, 'accept_fails', False):
                 conn.send_fails = True      # gone before the handshake answer
@@ -296,8 +297,28 @@ class SimW(SimT):
         kw.pop('ws_close_mode', None)       # (properties of the fake driver)
         kw.pop('ws_read_timeout', None)
         super().__init__(*a, **kw)
+        self.real_ws = []
         if websocket_available:
             self.server._async['websocket'] = _driver_class(self)
+
+    def lost_wakeup_conns(self):
+        """Connections in the state simple_websocket's lost wake-up leaves
+        behind (known finding K15): the library has marked the connection
+        closed and its reader thread has ended, but the handler thread is
+        still blocked in receive() - the event that should have woken it was
+        set before 'connected' was cleared and consumed together with an
+        earlier message."""
+        out = []
+        for rw in self.real_ws:
+            ws = getattr(rw, 'ws', None)
+            if ws is None or rw.conn.handler_done:
+                continue
+            th = getattr(ws, 'thread', None)
+            if not ws.connected and not ws.input_buffer and \
+                    th is not None and not th.is_alive() and \
+                    not ws.event.is_set():
+                out.append(rw.conn)
+        return out
 
     def new_ws(self):
         return WsConnW(self)
